@@ -20,7 +20,18 @@ Record ninfo := mkInfo { i_rrsets : list rrset; i_special : option special }.
 Definition view := name -> option ninfo.
 
 Definition info_of (n : node) : ninfo := mkInfo (n_rrsets n) (n_special n).
+(* the raw view: every node of the tree *)
 Definition view_of (z : node) : view := fun p => option_map info_of (node_at z p).
+
+(* the view a reader has: the NXDOMAIN marker of the write interface is not
+   looked at, and a node is a name only if it exists (ZoneNode::exists) *)
+Definition clean (s : option special) : option special := match s with Some NxDomain => None | _ => s end.
+Definition cinfo (n : node) : ninfo := mkInfo (n_rrsets n) (clean (n_special n)).
+Definition lview (z : node) : view :=
+  fun p => match node_at z p with
+           | Some x => if is_apex p || node_exists x then Some (cinfo x) else None
+           | None => None
+           end.
 
 (* ------------------------------------------------------------------ answers at a name *)
 Definition spec_positive (r : rrset) : nanswer := mkNA rc_noerror false true (AData r) None [].
